@@ -474,6 +474,16 @@ def run(repo: Repo, rep: Report, tier: str) -> None:
     n += rule_bec(repo, rep)
     n += rule_z(repo, rep)
     n += rule_purity(repo, rep)
+    # the errors of successive uses are independent: the variates come from the generator that advances across calls
+    from ..speciallint import lint_rng_discipline
+
+    for cname in ("BinarySymmetricChannel", "BinaryErasureChannel", "BinaryZChannel"):
+        ci_ = repo.cls(DG, cname)
+        for m_ in ci_.methods.values():
+            if m_.name == "forward" or m_.name.startswith("_") and m_.name != "__init__":
+                n += lint_rng_discipline(rep, m_, "BERNOULLI")
+    for f_ in repo.module(DG).functions.values():
+        n += lint_rng_discipline(rep, f_, "BERNOULLI")
     rep.floor("C12 rule instances", n, 26)
     rep.decided_clauses += [
         "each flip/erase indicator is `U < p` with U in [0,1) and p the configured, validated probability",
